@@ -693,6 +693,41 @@ func RunC02(t *testing.T, spec kernel.Spec) *kernel.Outcome {
 				w.Store.Unpublished = false
 			}
 		}
+		// last part of the history: time passes beyond the lifetime of the first ID token. An expired hint that was
+		// validly signed may still name its user at logout (C18); one that never was validly signed names nobody, however
+		// old it is - "expired" is a statement about a token whose signature has been verified.
+		id++
+		if cur.KID != "" && !strings.Contains(c.shape, "nokid") && (!o.Spec.KeepSet || containsInt(o.Spec.Keep, id)) {
+			c.step = id
+			o.StepIDs = append(o.StepIDs, id)
+			o.Steps++
+			w.Advance(w.Store.Clients[client].IDLifetime + 2*time.Minute)
+			hint := surfaces[2]
+			_, pOld, _ := splitJWT(s.tokens.IDToken)
+			stranger := world.FixtureKey(w.AlgPrefix, w.KeyN+3)
+			for _, f := range []struct{ name, tok string }{
+				{"signed-by-a-key-never-published-same-kid", signWith(dec(pOld), cur.Alg, stranger.Key, cur.KID, nil)},
+				{"signed-by-a-key-never-published-unknown-kid", signWith(dec(pOld), cur.Alg, stranger.Key, "sig-rotated-away", nil)},
+				{"signed-by-a-key-never-published-no-kid", signWith(dec(pOld), cur.Alg, stranger.Key, "", nil)},
+			} {
+				o.Fault("expired-forgery")
+				if accepted, sub, _ := hint.deliver(f.tok); accepted {
+					c.viol("forged-accepted", hint.surface+"/expired-and-"+f.name, "an expired id_token_hint %s was believed at logout; subject %q", f.name, sub)
+				} else {
+					o.Probe("tampered-rejected")
+				}
+				// ... and as a hint at the authorization endpoint it must not name a user either
+				q := url.Values{"client_id": {client}, "redirect_uri": {w.Store.Clients[client].Redirects[0]}, "response_type": {"code"}, "scope": {"openid"}, "state": {"s"}, "id_token_hint": {f.tok}}
+				r := b.Get(w.Issuer + "/authorize?" + q.Encode())
+				if r.Status == 302 && strings.Contains(r.Location, "/login?") {
+					u, _ := url.Parse(r.Location)
+					if a := w.Store.AuthReqSnapshot(u.Query().Get("authRequestID")); a != nil && a.HintSubject != "" {
+						c.viol("forged-accepted", "op-id-token-hint/authorize/expired-and-"+f.name, "an expired id_token_hint %s named user %q at the authorization endpoint", f.name, a.HintSubject)
+					}
+				}
+			}
+			o.Probe("expired-forgeries-presented")
+		}
 		o.Log = append([]string{fmt.Sprintf("config: router=%s alg=%s shape=%s", w.Router, w.SigAlg, c.shape)}, o.Log...)
 		o.Sample = map[string]any{"seed": spec.Seed, "router": w.Router, "alg": string(w.SigAlg), "key_set_shape": c.shape, "operators": len(ops), "surfaces": len(surfaces)}
 		o.Trace = []string{fmt.Sprintf("router=%s alg=%s shape=%s", w.Router, w.SigAlg, c.shape)}
